@@ -333,6 +333,25 @@ pub fn build(seed: u64, lossy: bool, with_strays: bool, with_replay: bool, bound
             stray_ids.push((to, src, idw, fresh_seq, seqw));
         }
     }
+    if with_strays {
+        // responses that carry the *sequence number* of a live send transaction of this daemon but name another source entity
+        // (one without transport): they belong to no transaction here and must be discarded, not handed to the namesake
+        for j in 0..rng.below(4) {
+            let k = rng.below(sc.puts.len() as u64) as usize;
+            let p = sc.puts[k].clone();
+            let to = p.from;
+            let id = sc.put_id(k);
+            let pup = Pup { src: vid(77, idw), dst: vid(sc.entities[p.to].id, idw), seq: id.1, crc: rng_bool(seed, 300 + j), large: false, unack: false };
+            let bytes = match rng.below(4) {
+                0 => pup.finished(Condition::CancelReceived, false, FileStatusCode::Unreported, vec![]),
+                1 => pup.nak(0, 16, &[(0, 16)]),
+                2 => pup.ack_eof(Condition::NoError),
+                _ => pup.finished(Condition::NoError, true, FileStatusCode::Retained, vec![]),
+            };
+            let t = p.at_ms + if rng.chance(1, 2) { rng.below(8) } else { rng.below(2500) };
+            sc.actions.push(Action { trigger: Trigger::AtMs(t), entity: to, kind: ActionKind::Inject { to, as_from: p.to, bytes } });
+        }
+    }
     let mut replayed_puts = vec![];
     if with_replay {
         // learn the datagrams of Put #0 from a run without the replay, then replay a random subset after its end
@@ -378,7 +397,7 @@ fn rng_bool(seed: u64, j: u64) -> bool {
 pub fn run(ctx: &mut Ctx) {
     ctx.rule = "seeded generation: 2-3 real daemons (id widths 1/2/4/8, different configurations per daemon), 2..8 (one in four: up to 24) Puts issued within 30 ms in any direction (in half of the scenarios all daemons number their transactions from the same start value), acknowledged and unacknowledged, sizes \
 {0,1,seg,3seg+5,6seg}, contents tagged per transaction, destinations in per-sender directories; six families: loss-free, loss-free + strays, one lost datagram per directed link (acknowledged Puts must still succeed) with and without strays, lossy (per-datagram loss 1..20 %, delays, duplicates on every link) + strays, and \
-loss-free + strays + replay of a random subset of the PDUs of Put #0 after it has ended, plus reflections of its PDUs back to the entity that emitted them around the end of that transaction. Strays (1..12 per scenario): ACK/NAK/Finished for a sender that does not exist, PDUs naming entity 77 (no transport), Metadata / FileData / EOF / \
+loss-free + strays + replay of a random subset of the PDUs of Put #0 after it has ended, plus reflections of its PDUs back to the entity that emitted them around the end of that transaction. Strays (1..12 per scenario, plus up to 3 responses that carry the sequence number of a live send transaction but another source entity): ACK/NAK/Finished for a sender that does not exist, PDUs naming entity 77 (no transport), Metadata / FileData / EOF / \
 Prompt / ACK(Finished) with fresh ids from a known peer. Non-trivial = two transactions overlapped in time on one daemon, or at least one stray PDU was routed; distinct by scenario."
         .into();
     ctx.assumptions = vec![
